@@ -1135,3 +1135,12 @@ B('GK-fallback-axis-dropped', ['C13'], 'util.py', 'array_to_groups_and_locations
   '                array.astype(str),\n                return_index=True,\n                return_inverse=True)\n        # groups here', 'I.group-key-fallback', 'array_to_groups_and_locations')
 N('GK-fallback-named-temp', ['C13'], 'util.py', 'array_to_groups_and_locations',
   '        _, group_index, locations = np.unique(\n                array.astype(str),', '        as_text = array.astype(str)\n        _, group_index, locations = np.unique(\n                as_text,')
+
+# ---------------------------------------------------------------------------------- full_for_fill resolves (C07 / C11 / C06)
+B('FF-inexact-keeps-target', ['C07', 'C11', 'C06'], 'util.py', 'full_for_fill',
+  '        dtype_final = resolve_dtype(dtype, dtype_element)\n', '        if dtype.kind in DTYPE_INEXACT_KINDS and dtype.kind == dtype_element.kind:\n            dtype_final = dtype\n        else:\n            dtype_final = resolve_dtype(dtype, dtype_element)\n',
+  'F1.full-for-fill-resolves', 'full_for_fill')
+B('FF-target-wins', ['C07', 'C11', 'C06'], 'util.py', 'full_for_fill',
+  '        dtype_final = resolve_dtype(dtype, dtype_element)\n', '        dtype_final = dtype\n', 'F1.full-for-fill-resolves', 'full_for_fill')
+N('FF-swapped-operands', ['C07', 'C11', 'C06'], 'util.py', 'full_for_fill',
+  '        dtype_final = resolve_dtype(dtype, dtype_element)\n', '        dtype_final = resolve_dtype(dtype_element, dtype)\n')
